@@ -59,13 +59,18 @@ Clauses(e) ==
       sc == e.script
       st == e.start
       o == e.obs
-  IN /\ Check(tid, l, "H.chain", "", IF l > 1 /\ T[l - 1].sess = e.sess
-                                      THEN sc = T[l - 1].script /\ st = T[l - 1].start + T[l - 1].obs.consumed
+  IN \* same input as the previous ask: reading goes on where it stopped (what was appended in between comes last);
+     \* a replaced input, or another I/O: from its first line
+     /\ Check(tid, l, "H.chain", "", IF l > 1 /\ T[l - 1].sess = e.sess
+                                      THEN (IF Replaces(e.route) THEN sc = EnvScript(e.route) /\ st = 0
+                                            ELSE sc = EnvScriptOn(T[l - 1].script, e.route)
+                                                 /\ st = T[l - 1].start + T[l - 1].obs.consumed)
                                       ELSE st = 0)
      \* the environment of the dialogue is the I/O as the route of calls left it
      /\ Check(tid, l, "H.route", "", (l = 1 \/ T[l - 1].sess # e.sess) => (e.route # <<>> /\ sc = EnvScript(e.route)))
      /\ Check(tid, l, "H.route.inter", "", SetsInter(e.route) => qq.interactive = EnvInter(e.route))
      /\ Check(tid, l, "H.object", "", e.reask = (\E j \in 1..(l - 1) : T[j].obj = e.obj))
+     /\ Check(tid, l, "P.typed", IF l > 1 /\ T[l - 1].sess = e.sess /\ Replaces(e.route) THEN "after-reload" ELSE "", PTyped(sc, st, o))
      /\ Check(tid, l, "H.sane", "", HSane(sc, st, o))
      /\ Check(tid, l, "P.terminates", TermKey(o), PTerminates(o))
      /\ Check(tid, l, "P.noninteractive", "", PNonInteractive(qq, o))
